@@ -371,6 +371,14 @@ func runC18(r *mc.Run) {
 		}
 	}
 	ownerTo := len(pfaults)
+	// minimum QE / PCE security versions against quotes whose header carries non-zero, non-palindromic values
+	svnFrom := len(pfaults)
+	for _, n := range []uint16{1, 2, 5, 255, 256, 257, 0x0500, 0xffff} {
+		n := n
+		pfaults = append(pfaults, c18fault{fmt.Sprintf("minimum-qe-svn=%d", n), func(p *world.QuoteParts, o *rtmr.ParseTdxCcelOpts) { o.Validation.HeaderOptions.MinimumQeSvn = n }},
+			c18fault{fmt.Sprintf("minimum-pce-svn=%d", n), func(p *world.QuoteParts, o *rtmr.ParseTdxCcelOpts) { o.Validation.HeaderOptions.MinimumPceSvn = n }})
+	}
+	svnTo := len(pfaults)
 	type c18case struct{ v, p, bit, lg int }
 	var cases []c18case
 	for v := range vfaults {
@@ -378,6 +386,11 @@ func runC18(r *mc.Run) {
 			cases = append(cases, c18case{v, p, -1, 0})
 		}
 	}
+	// lg bits 2 / 3: the header carries PCE SVN 5 / QE SVN 1 (bytes 05 00 / 01 00) resp. PCE SVN 0x0201 / QE SVN 0x0100
+	for p := svnFrom; p < svnTo; p++ {
+		cases = append(cases, c18case{0, p, -1, 4}, c18case{0, p, -1, 8})
+	}
+	cases = append(cases, c18case{0, 0, -1, 4}, c18case{0, 0, -1, 8}, c18case{2, 0, -1, 4})
 	// lg bit 1: the quote carries three distinct owner-supplied identities (the sample's are equal to each other)
 	for p := range pfaults {
 		cases = append(cases, c18case{0, p, -1, 2})
@@ -450,11 +463,23 @@ func runC18(r *mc.Run) {
 		if c.lg&2 != 0 {
 			id += ",distinct-owner-identities"
 		}
+		if c.lg&4 != 0 {
+			id += ",header-svns=pce5/qe1"
+		}
+		if c.lg&8 != 0 {
+			id += ",header-svns=pce0x0201/qe0x0100"
+		}
 		if !r.Want(id) {
 			return
 		}
 		measured := measuredBy[c.lg&1]
 		p := baseParts()
+		if c.lg&4 != 0 {
+			copy(p.Header[8:12], []byte{5, 0, 1, 0})
+		}
+		if c.lg&8 != 0 {
+			copy(p.Header[8:12], []byte{1, 2, 0, 1})
+		}
 		if c.lg&2 != 0 {
 			copy(p.Body[184:232], world.Fill("c18-config-id", 48))
 			copy(p.Body[232:280], world.Fill("c18-owner", 48))
